@@ -87,6 +87,32 @@ func streamC11(c *Ctx) {
 				lines = append(lines, opLine("findAll", J{"q": J{"coll": hx("r")}}))
 			}
 			reads()
+			// rewrites that keep every value's place in the order but not its type or zone (the same number as
+			// int64 / uint64 / float64, the same instant at another offset, 2^53+1 as the float next to it): what is
+			// read back must be what was written last - through every write path, the bulk ones included
+			same := [][]interface{}{
+				{int64(5), float64(5), uint64(5)},
+				{mkTime(1577934245000000006, 0), mkTime(1577934245000000006, 3600), mkTime(1577934245000000006, -27000)},
+				{int64(1<<53 + 1), float64(1 << 53), uint64(1<<53 + 1)},
+				{[]interface{}{int64(1), "a"}, []interface{}{float64(1), "a"}},
+				{map[string]interface{}{"k": int64(0)}, map[string]interface{}{"k": float64(0)}},
+			}
+			fam := same[g.pick(len(same))]
+			lines = append(lines, opLine("update", J{"q": J{"coll": hx("r")}, "upd": J{"setAll": []interface{}{[]interface{}{hx("same"), encValue(fam[0])}}}, "viaUpdate": 1}))
+			for k := 1; k < len(fam)+1; k++ {
+				v := fam[k%len(fam)]
+				switch g.pick(4) {
+				case 0:
+					lines = append(lines, opLine("update", J{"q": J{"coll": hx("r")}, "upd": J{"setAll": []interface{}{[]interface{}{hx("same"), encValue(v)}}}, "viaUpdate": 1}))
+				case 1:
+					lines = append(lines, opLine("update", J{"q": J{"coll": hx("r"), "crit": J{"exists": hx("same")}}, "upd": J{"setAll": []interface{}{[]interface{}{hx("same"), encValue(v)}}}}))
+				case 2:
+					lines = append(lines, opLine("updateById", J{"coll": hx("r"), "id": hx(ids[g.pick(len(ids))]), "upd": J{"setAll": []interface{}{[]interface{}{hx("same"), encValue(v)}}}}))
+				default:
+					lines = append(lines, opLine("update", J{"q": J{"coll": hx("r"), "sort": []interface{}{[]interface{}{hx("same"), 1}}, "limit": 4}, "upd": J{"setAll": []interface{}{[]interface{}{hx("same"), encValue(v)}}}, "viaUpdate": 1}))
+				}
+				reads()
+			}
 			if be != "badger-mem" {
 				lines = append(lines, J{"k": "reopen"})
 				reads()
@@ -577,6 +603,58 @@ func streamC20(c *Ctx) {
 	dm := Domain{IntsWithin2p53: true, NoNegTimes: true}
 	for _, be := range []string{"bbolt", "badger-mem", "badger-disk"} {
 		im := NewImpl(be, c.Scratch)
+		{
+			// edges of the key space: a collection whose name sorts first, with indexes and NO documents (never had any;
+			// all deleted), alone in the database and next to others: every leaf form x sort direction x window through the
+			// index, so that cursors start, stop and reverse at the very first and last key of the store
+			g := NewGen(c.Rng, dm)
+			h := NewHistGen(g, 1, 2)
+			lines := []J{opLine("createCollection", J{"coll": hx("!")}), opLine("createIndex", J{"coll": hx("!"), "field": hx("x")}), opLine("createIndex", J{"coll": hx("!"), "field": hx("n.a")})}
+			sweep := func() {
+				for _, op := range []string{"eq", "gt", "ge", "lt", "le"} {
+					for _, v := range []interface{}{int64(5), nil, "a", true} {
+						for _, dir := range []int{0, 1, -1} {
+							q := J{"coll": hx("!"), "crit": J{"cmp": []interface{}{op, hx("x"), J{"lit": encValue(v)}}}}
+							if dir != 0 {
+								q["sort"] = []interface{}{[]interface{}{hx("x"), dir}}
+							}
+							lines = append(lines, opLine([]string{"findAll", "count", "exists", "findFirst"}[g.pick(4)], J{"q": q}))
+						}
+					}
+				}
+				lines = append(lines, opLine("findAll", J{"q": J{"coll": hx("!"), "sort": []interface{}{[]interface{}{hx("x"), -1}}}}), opLine("findAll", J{"q": J{"coll": hx("!"), "sort": []interface{}{[]interface{}{hx("n.a"), 1}}}}),
+					opLine("delete", J{"q": J{"coll": hx("!"), "crit": J{"cmp": []interface{}{"lt", hx("x"), J{"lit": encValue(int64(3))}}}, "sort": []interface{}{[]interface{}{hx("x"), -1}}}}),
+					opLine("update", J{"q": J{"coll": hx("!"), "crit": J{"cmp": []interface{}{"gt", hx("x"), J{"lit": encValue(int64(3))}}}, "sort": []interface{}{[]interface{}{hx("x"), 1}}}, "upd": h.Upd()}))
+			}
+			sweep()
+			docs := []interface{}{}
+			for j := 0; j < 4; j++ {
+				docs = append(docs, encDoc(h.Doc(h.newId())))
+			}
+			lines = append(lines, opLine("insert", J{"coll": hx("!"), "docs": docs}))
+			sweep()
+			lines = append(lines, opLine("delete", J{"q": J{"coll": hx("!")}}))
+			sweep()
+			lines = append(lines, opLine("createCollection", J{"coll": hx("~")}), opLine("insert", J{"coll": hx("~"), "docs": docs}), opLine("dropIndex", J{"coll": hx("!"), "field": hx("n.a")}))
+			sweep()
+			o := runHistory(dr, im, lines, HistOpts{})
+			recordHistory(c, lines, &o, be)
+			c.Count("edge-of-keyspace")
+			for i, r := range o.Results {
+				if strings.HasPrefix(r.Impl, "panic") {
+					c.Violation(&Replay{Backend: be, Stream: "history", Case: toIfaces(lines[:i+1]), FirstDivergence: i, Actual: []string{r.Impl}, Note: "a public operation panicked"})
+					im.Destroy()
+					return
+				}
+			}
+			if o.Index >= 0 {
+				if reportHistoryProblem(c, dr, im, lines, &o, be, HistOpts{}, "panics") {
+					im.Destroy()
+					return
+				}
+			}
+			im.Reset()
+		}
 		for hN := 0; hN < nHist; hN++ {
 			g := NewGen(c.Rng, dm)
 			h := NewHistGen(g, 2, 4)
